@@ -270,13 +270,12 @@ func (c *wsConnection) sendPing() error {
 	pingCtx, cancel := context.WithTimeout(c.ctx, c.writeTimeout)
 	defer cancel()
 
-	err := pinger.Ping(pingCtx, c.conn)
-	if err != nil {
-		return err
-	}
-
+	// Record the send time before the frame goes out: the pong of a fast
+	// upstream can be processed by the read loop before Ping returns, and a
+	// pong that looks older than its ping would count as overdue at the next tick.
 	c.lastPingSentAt.Store(time.Now().UnixNano())
-	return nil
+
+	return pinger.Ping(pingCtx, c.conn)
 }
 
 // pongOverdue returns true if a pong has not been received since the last ping
